@@ -166,7 +166,7 @@ def judge_serializer(ctx, rng):
     for j, d in enumerate(docs):
         tree = h5.parse_doc(d)[2]
         enc = rng.choice([None, None, "utf-8", "ascii"])
-        mode = rng.choice(["render", "render", "abandon"])
+        mode = rng.choice(["render", "render", "abandon", "serialize"])
         W = h5.walker("etree")
 
         def run(s):
@@ -180,6 +180,9 @@ def judge_serializer(ctx, rng):
                             break
                     it.close()
                     return ("abandoned", out)
+                if mode == "serialize":
+                    # the generator entry point, driven to the end by the caller
+                    return ("ok-serialize", list(s.serialize(W(tree), enc)), list(s.errors))
                 return ("ok", s.render(W(tree), enc), list(s.errors))
             except Exception as e:
                 return ("exc", type(e).__name__, list(s.errors))
@@ -192,14 +195,44 @@ def judge_serializer(ctx, rng):
             ctx.violation("serializer-state-leak", dict(case, failing_call=j), "render %d of %r: fresh %r reused %r" % (
                 j, short(d, 50), short(repr(exp), 200), short(repr(got), 200)))
             return
-        # walker object iterated twice
-        w = W(tree)
-        a = list(w)
-        b = list(w)
-        ctx.count("walker_double_iterations")
-        if a != b:
-            ctx.violation("walker-second-iteration-differs", case, "doc %r" % short(d, 60))
-            return
+        # walker object iterated twice; iterated again after an abandoned iteration; two iterations interleaved
+        for wk in ("etree", "dom"):
+            try:
+                tw = tree if wk == "etree" else h5.parse_doc(d, kind="dom")[2]
+            except Exception:
+                continue
+            Wk = h5.walker(wk)
+            w = Wk(tw)
+            a = list(w)
+            b = list(w)
+            ctx.count("walker_double_iterations")
+            if a != b:
+                ctx.violation("walker-second-iteration-differs", case, "%s walker, doc %r" % (wk, short(d, 60)))
+                return
+            if len(a) > 2:
+                w2 = Wk(tw)
+                it = iter(w2)
+                for _ in range(rng.randint(1, len(a) - 1)):
+                    next(it, None)
+                del it  # abandoned below the root
+                try:
+                    c = list(w2)
+                except Exception as e:
+                    c = "raised %s" % type(e).__name__
+                ctx.count("walker_iterations_after_abandoned_one")
+                if c != a:
+                    ctx.violation("walker-iteration-after-abandoned-one-differs", case, "%s walker, doc %r: %s" % (wk, short(d, 60), short(repr(c), 120)))
+                    return
+                w3 = Wk(tw)
+                try:
+                    pairs = list(zip(w3, w3))
+                    ok = all(x == y for x, y in pairs) and [x for x, _ in pairs] == a
+                except Exception as e:
+                    ok = False
+                ctx.count("walker_interleaved_iterations")
+                if not ok:
+                    ctx.violation("walker-interleaved-iterations-differ", case, "%s walker, doc %r" % (wk, short(d, 60)))
+                    return
     ctx.case(["ser", docs, sorted(opts.items()), strict], nontrivial=True)
 
 
